@@ -15,7 +15,9 @@ Operations
   mutate   slice.load_bits/uint/int/bytes/bit/ref/maybe_ref/coins/address/dict/snake, skip_bits;
            builder.store_bits/uint/bit/bytes/ref/cell/slice/maybe_ref/snake — also AFTER end_cell() was called on the
            builder and on builders obtained from cell.to_builder()
-  observe  cell.hash, get_hash(i), to_boc (6 valid option sets), order() with / without an explicit dict,
+  observe  cell.hash, get_hash(i), to_boc (6 valid option sets), order() with / without an explicit dict - optionally followed by
+           what a caller does with the dict it was GIVEN BACK ('use': accumulator of another pooled cell's order(acc), root / last
+           entry taken off, emptied, a foreign cell added, cells numbered, combinations) and the same order() / to_boc() again,
            calculate_representation_hash(), repr, str, dictionary parse attempts (load_dict / HashMap.parse /
            HashMap.from_cell), TL-B parse attempts (MessageAny, Account, StateInit, Transaction, VmStack, ...),
            VmStack.serialize of a caller-held list of pooled cells / slices / builders / ints / VmTuple (nested),
@@ -23,7 +25,10 @@ Operations
   reuse    a fourth pool holds HashMap OBJECTS the caller keeps: hm_new (map_= / set_int_key / HashMap.from_cell of a pooled
            cell: values are then the slices the library hands out), hm_set (new key or an existing one), hm_edit (touch = a
            mutable VALUE - slice, builder, list - changes in place while the map is not touched; del; the public map / the
-           serializer rebound to an equal one; salt = state the serializer closes over changes), hm_ser (serialize twice on
+           serializer rebound to an equal one; salt = state the serializer closes over changes; refill = the object gets other
+           entries, possibly of ANOTHER KIND of value: empty / cells / untouched slices / slices of which bits and children were
+           already read / mixed, via map rebinding, clear+update or del+set_int_key - also with the DEFAULT value serializer, which
+           by duck typing takes cells and slices), hm_ser (serialize twice on
            the object AND once on an equal HashMap that was never serialized: all three agree).  Values may be pooled
            slices / builders, so ordinary load / store ops on those change a dictionary value through the caller's other
            handle.  VmStack.serialize: after the two calls every caller-held list / VmTuple gets one more entry and is
@@ -59,6 +64,9 @@ Invariant, checked after EVERY op
        whose callback calls the library gives what it gives when the callback only stores prepared objects
        ('HashMap.serialize/depends-on-a-call-made-inside-its-value-serializer', 'HashMap.parse/depends-on-a-call-made-
        inside-its-value-deserializer', 'HashMap.serialize/history-dependent/after-a-nested-call').
+  (I7) returned containers belong to the caller: after the caller used the dict order() returned (see 'use' above), order() of the
+       same cell gives the same sequence and to_boc() the same bytes ('order/depends-on-what-the-caller-did-with-an-earlier-result',
+       'to_boc/depends-on-what-the-caller-did-with-an-order-result'); what other.order(acc) itself returns is not judged.
 
 Sub-check `history-independence` ("no state carried between calls"): case = {'setup', 'obs', 'prefix'}.  World 1 runs
 setup, observes (result R1), runs the prefix — whose mutating ops are kept away from the slices/builders the
@@ -123,7 +131,10 @@ RULE = ('case = program of plain-data ops over pools of cells/slices/builders (i
         'sets, order with/without dict, representation hash, repr/str, dict / TL-B parse attempts, VmStack.serialize, '
         'HashMap.serialize), reuse (pool of HashMap objects: new via map_/set/from_cell, set, in-place change of a slice / builder / '
         'list value, del, rebind map / serializer, serializer state; serialize on the object twice and on an equal fresh object; '
-        'VmStack containers extended in place and serialized again vs fresh equal containers), re-entrancy (outer dictionary whose '
+        'refill with entries of another value kind - empty / cells / slices / half-read slices with consumed references - under the '
+        'default or the caller\'s serializer; '
+        'VmStack containers extended in place and serialized again vs fresh equal containers), returned containers (the dict order() gave '
+        'back used as accumulator of another cell / popped / cleared / extended, then order() and to_boc() again), re-entrancy (outer dictionary whose '
         'value serializer itself calls HashMap.serialize / parse / VmStack.serialize / to_boc / order for chosen leaves vs the same '
         'objects prepared beforehand; nested value deserializers vs sequential reads). '
         '3..30 ops (quick) / ..50 (thorough), macros force derive->mutate, end_cell->store, '
@@ -134,7 +145,8 @@ RULE = ('case = program of plain-data ops over pools of cells/slices/builders (i
         'length, or a HashMap object is serialized again after an in-place change of a value / serializer state, or a leaf follows '
         '(in key order) the first leaf whose serializer calls the library; distinct = distinct program. Enumerated: reuse grid '
         '(value kind x position x change x 1-2 earlier serializations; parsed dictionary re-written after reading the k-th value; '
-        'two objects alternately; inner call kind x which leaves nest x widths; stack containers); Enumerated: every length 0..1023 x {plain, TvmBitarray} x 2 fills x '
+        'two objects alternately; inner call kind x which leaves nest x widths; stack containers; value kind before x value kind after '
+        'x default / own serializer x refill route; order() result use x explicit / no dict x (cell, other cell) relation); Enumerated: every length 0..1023 x {plain, TvmBitarray} x 2 fills x '
         '{leaf, with refs}; grid construction route x derivation chain x mutation. history-independence: setup + '
         'observation + prefix program on other objects, observation compared fresh / after prefix / in a rebuilt world. '
         'level-arguments: DAG with ordinary / pruned (every mask 1..7) / library / Merkle cells, created one by one, get_hash / get_depth / '
@@ -247,7 +259,9 @@ class _Model:
                 r['x'] = op.get('x', 0) % ns
             return r
         if k == 'obs':
-            return dict(op, c=op['c'] % nc) if nc else None
+            if not nc:
+                return None
+            return dict(op, c=op['c'] % nc, o=op['o'] % nc) if 'o' in op else dict(op, c=op['c'] % nc)
         if k == 'vmstack':
             return dict(op, items=[self._resolve_val(v) for v in op['items']])
         if k == 'hashmap':
@@ -319,6 +333,9 @@ class _Model:
         elif k == 'obs':
             what = op['what']
             self.lab('obs:' + what + (f":{'no-arg' if not op.get('k') else 'explicit-dict'}" if what == 'order' else ''))
+            if what == 'order' and op.get('use'):
+                self.lab('order:result-used-by-the-caller:' + ('accumulator-of-another-cell' if op['use'] == 1 and op.get('o') != op['c']
+                                                                else 'edited' if op['use'] != 1 else 'accumulator-of-the-same-cell'))
             if what == 'order':
                 self.order_cells.append(op['c'])
                 if len(self.order_cells) >= 2:
@@ -352,6 +369,10 @@ class _Model:
                            's': {v['i'] for _, v in op['items'] if v['t'] == 'slice'},
                            'b': {v['i'] for _, v in op['items'] if v['t'] == 'builder'}})
             self.lab('hm:new:via-' + op.get('via', 'map_'))
+            self.h[-1]['kinds'] = self._hm_kinds(op['items'])
+            self.h[-1]['default'] = op.get('ser') == 'default'
+            if op.get('ser') == 'default':
+                self.lab('hm:new:default-serializer:' + self.h[-1]['kinds'])
             for x in sorted(kinds):
                 self.lab('hm:value:' + x)
         elif k == 'hm_set':
@@ -365,6 +386,11 @@ class _Model:
             h = self.h[op['h']]
             how = op['how']
             self.lab('hm:edit:' + how)
+            if how == 'refill':
+                kinds = self._hm_kinds(op.get('items', []))
+                if h.get('default') and h['nser']:
+                    self.lab(f"hm:default-serializer:serialized-with:{h.get('kinds')}:then-refilled-with:{kinds}")
+                h['kinds'] = kinds
             if h['nser']:
                 if how in ('touch', 'salt'):
                     h['inplace'] = True        # the map itself is not touched: a value / the serializer's state changes in place
@@ -391,6 +417,12 @@ class _Model:
                 self.nt = True
                 self.lab('NT:library-call-inside-a-callback-of-another')
             self.c.append({'nb': None, 'nr': None, 'route': 'nested', 'roots': set()})
+
+    @staticmethod
+    def _hm_kinds(items):
+        ks = sorted({('half-read-slice' if (v.get('lr') and v.get('nr')) else 'slice') if v['t'] in ('own_slice', 'slice')
+                     else 'cell' if v['t'] in ('cell', 'own_cell') else v['t'] for _, v in items})
+        return '+'.join(ks) or 'empty'
 
     def _val_kinds(self, items, kinds, roots, depth):
         for v in items:
@@ -1001,7 +1033,7 @@ class _World:
             canon, f, _ = self._twice(lambda: str(c), name)
             return f or self._pin(e, 'str', canon, name, ci), None, canon
         if what == 'order':
-            return self._obs_order(e, ci, k)
+            return self._obs_order(e, ci, k, op.get('use', 0), op.get('o'))
         if what == 'dict':
             return self._obs_dict(e, ci, k)
         if what == 'tlb':
@@ -1066,10 +1098,11 @@ class _World:
             return Fail(f'{name}/second-parse-differs', f'{self._at()}: window bits {sb}..{eb} refs {sr}..{er}: {_clip(c1)} then {_clip(c2)}'), None, c1
         return None, None, c1
 
-    def _obs_order(self, e, ci, k):
+    def _obs_order(self, e, ci, k, use=0, other=None):
         c = e['o']
         dag = self._dag(c)
         canon = None
+        mine = []
         for rep in range(2):
             if k:
                 ok, r = call(lambda: c.order({}))
@@ -1079,6 +1112,7 @@ class _World:
             self.order_calls += 1
             if not ok:
                 return Fail(f'order/raises/{exc_sig(r)}', f'{self._at()}: {r!r}'), None, None
+            mine.append(r)
             got = [x.hash for x in r]
             # entries that do not belong to the cell's DAG can only have been left behind by another call (possibly
             # of an earlier case in this process); missing entries on the very first call are a plain ordering defect
@@ -1093,7 +1127,53 @@ class _World:
             if canon is not None and seq != canon:
                 return Fail('order/not-idempotent', f'{self._at()}: two consecutive {how} calls gave different sequences'), None, None
             canon = seq
+        if use:
+            f = self._use_order_result(c, ci, k, use, other, mine, canon)
+            if f is not None:
+                return f, None, None
         return self._pin(e, 'order', canon, 'order', ci), None, canon
+
+    def _use_order_result(self, c, ci, k, use, other, mine, canon):
+        """the dict order() returned belongs to the caller: it goes on as the accumulator of ANOTHER cell's order(acc) (the documented
+        way of ordering several roots), loses / gains entries, is emptied - and the cell is ordered and serialized again: same as
+        before.  (What the other cell's order(acc) returns is not judged.)"""
+        L = self.L
+        boc0 = [call(c.to_boc), call(lambda: c.to_boc(True, True))]
+        boc0 = [(ok, r if ok else None) for ok, r in boc0]
+        oc = self.cells[other]['o'] if other is not None else c
+        done = set()
+        for r in mine:
+            if not isinstance(r, dict) or id(r) in done:
+                continue
+            done.add(id(r))
+            for u in (use if isinstance(use, list) else [use]):
+                if u == 1:                       # accumulator of another root
+                    call(oc.order, r)
+                elif u == 2 and r:               # the caller takes the root off
+                    r.pop(next(iter(r)))
+                elif u == 3 and r:               # ... the last cell
+                    r.popitem()
+                elif u == 4:
+                    r.clear()
+                elif u == 5:                     # a cell of the caller's own goes in
+                    r[L.Builder().store_uint(0x5eed, 16).end_cell()] = None
+                elif u == 6:                     # the caller numbers the cells
+                    for n, x in enumerate(list(r)):
+                        r[x] = n + 7
+        how = 'order()' if not k else 'order({})'
+        ok, r = call(lambda: c.order({})) if k else call(c.order)
+        self.order_calls += 1
+        seq = [x.hash.hex() for x in r] if ok else 'raised'
+        if seq != canon:
+            return Fail('order/depends-on-what-the-caller-did-with-an-earlier-result',
+                        f'{self._at()}: cell #{ci}.{how} gave {len(canon)} cells; the caller then used the returned dict (use {use}, other cell '
+                        f'#{other}); the same call now gives {len(seq) if ok else seq} cells')
+        boc1 = [call(c.to_boc), call(lambda: c.to_boc(True, True))]
+        boc1 = [(ok, r if ok else None) for ok, r in boc1]
+        if boc0 != boc1:
+            return Fail('to_boc/depends-on-what-the-caller-did-with-an-order-result',
+                        f'{self._at()}: cell #{ci}.to_boc() differs after the caller used the dict {how} had returned (use {use}, other cell #{other})')
+        return None
 
     def _obs_dict(self, e, ci, k):
         L = self.L
@@ -1151,8 +1231,18 @@ class _World:
             return self.builders[v['i']]['o']
         if t == 'ints':                       # a list the caller owns (a mutable value of a dictionary)
             return [int(x) for x in v['v']]
-        if t == 'own_slice':                  # a slice nobody else holds
-            return self.L.Builder().store_bits(_bits(v['b'])).to_slice()
+        if t == 'own_slice':                  # a slice nobody else holds - of a cell with 'nr' children, 'lb' bits / 'lr' children of it already read
+            b = self.L.Builder().store_bits(_bits(v['b']))
+            for j in range(v.get('nr', 0)):
+                b.store_ref(self.L.Builder().store_uint(0xA0 + j, 8).end_cell())
+            s = b.end_cell().begin_parse() if v.get('nr') else b.to_slice()
+            if v.get('lb'):
+                call(s.load_bits, min(v['lb'], len(s.bits)))
+            for _ in range(min(v.get('lr', 0), v.get('nr', 0))):
+                call(s.load_ref)
+            return s
+        if t == 'own_cell':
+            return self.L.Builder().store_bits(_bits(v['b'])).end_cell()
         if t == 'tuple':
             return self.L.VmTuple([self._build_val(x, roots) for x in v['items']])
         if t == 'list':
@@ -1359,6 +1449,8 @@ class _World:
                 return None, None, None
             if isinstance(v, L.Slice):
                 call(lambda: v.load_bits(min(max(1, n), len(v.bits))))
+                if n in (2, 7, 15):
+                    call(v.load_ref)
             elif isinstance(v, L.Builder):
                 call(lambda: v.store_uint(n % 2, 1))
             elif isinstance(v, list):
@@ -1368,6 +1460,20 @@ class _World:
         elif how == 'del' and key is not None:
             del hm.map[key]
             e['pooled'].pop(key, None)
+        elif how == 'refill':                             # the object is used for other entries (possibly of another kind of value)
+            vals = {k % (1 << e['kl']): self._build_val(v, e['roots']) for k, v in op.get('items', [])}
+            via = op.get('via', 'rebind')
+            if via == 'rebind':
+                hm.map = vals
+            elif via == 'update':
+                hm.map.clear()
+                hm.map.update(vals)
+            else:
+                for k in list(hm.map):
+                    del hm.map[k]
+                for k, val in vals.items():
+                    call(hm.set_int_key, k, val)
+            e['pooled'] = {}
         elif how == 'rebind_map':                         # the public attribute is replaced by an equal dict
             hm.map = dict(hm.map)
         elif how == 'rebind_ser':                         # ... the serializer by another callable that does the same
@@ -1780,6 +1886,9 @@ def _g_obs(draw, m, ci=None, what=None):
         op['k'] = draw(st.one_of(st.integers(0, 5), st.integers(0, 23)))
     elif what == 'order':
         op['k'] = draw(st.sampled_from([0, 0, 1]))
+        if draw(st.integers(0, 2)):             # the caller goes on with the dict it was given
+            op['use'] = draw(st.sampled_from([1, 1, 1, 2, 3, 4, 5, 6, [1, 2], [5, 1], [2, 1]]))
+            op['o'] = _idx(draw, len(m.c))
     elif what == 'dict':
         op['k'] = [draw(st.integers(0, 2)), draw(st.sampled_from([1, 2, 8, 8, 8, 16, 32, 256]))]
     elif what == 'tlb':
@@ -1840,11 +1949,37 @@ def _g_hashmap(draw, m):
 
 
 NESTED_KINDS = ('uint-dict', 'cell-dict', 'recursive', 'parse', 'vmstack', 'boc', 'order')
-HM_EDITS = ('touch', 'touch', 'touch', 'del', 'rebind_map', 'rebind_ser', 'salt')
+HM_EDITS = ('touch', 'touch', 'touch', 'del', 'rebind_map', 'rebind_ser', 'salt', 'refill')
+
+
+def _g_own_slice(draw, read=None):
+    v = {'t': 'own_slice', 'b': _bitspec(draw, cap=200, small=draw(st.booleans()))}
+    if read or (read is None and draw(st.booleans())):             # of a cell with children, partly read already
+        v['nr'] = draw(st.sampled_from([1, 2, 2, 3, 4]))
+        v['lr'] = draw(st.integers(1 if read else 0, v['nr']))
+        v['lb'] = draw(st.sampled_from([0, 0, 1, 8, 300]))
+    return v
+
+
+_HM_PLAIN = ('empty', 'cell', 'slice', 'half-read-slice', 'half-read-slice', 'cell-then-half-read-slice', 'half-read-slice-then-cell', 'ints')
+
+
+def _g_hm_plain_items(draw, kl, kind):
+    """entries of one kind of value that needs no pool"""
+    if kind == 'empty':
+        return []
+    n = draw(st.sampled_from([1, 1, 2, 3]))
+    keys = sorted(draw(st.lists(st.integers(0, (1 << kl) - 1), min_size=min(n, 1 << kl), max_size=min(n, 1 << kl), unique=True)))
+    out = []
+    for j, key in enumerate(keys):
+        k = kind.split('-then-')[min(j, 1)] if '-then-' in kind else kind
+        out.append([key, {'t': 'own_cell', 'b': _bitspec(draw, cap=100, small=True)} if k == 'cell' else
+                    {'t': 'ints', 'v': [j]} if k == 'ints' else _g_own_slice(draw, read=(k == 'half-read-slice'))])
+    return out
 
 
 def _g_hmval(draw, m):
-    kinds = ['ints', 'own_slice', 'own_slice', 'null']
+    kinds = ['ints', 'own_slice', 'own_slice', 'null', 'own_cell']
     if m.c:
         kinds += ['cell']
     if m.s:
@@ -1855,7 +1990,9 @@ def _g_hmval(draw, m):
     if t == 'ints':
         return {'t': 'ints', 'v': draw(st.lists(st.integers(0, 300), max_size=3))}
     if t == 'own_slice':
-        return {'t': 'own_slice', 'b': _bitspec(draw, cap=200, small=draw(st.booleans()))}
+        return _g_own_slice(draw)
+    if t == 'own_cell':
+        return {'t': 'own_cell', 'b': _bitspec(draw, cap=200, small=True)}
     if t == 'null':
         return {'t': 'null'}
     return {'t': t, 'i': _idx(draw, len({'cell': m.c, 'slice': m.s, 'builder': m.b}[t]))}
@@ -1863,11 +2000,12 @@ def _g_hmval(draw, m):
 
 def _g_hm_new(draw, m, via=None):
     kl = draw(st.sampled_from([1, 2, 8, 8, 16, 32, 256]))
-    n = draw(st.sampled_from([1, 1, 2, 2, 3, 5]))
+    n = draw(st.sampled_from([0, 1, 1, 2, 2, 3, 5]))
     keys = draw(st.lists(st.integers(0, (1 << kl) - 1), min_size=min(n, 1 << kl), max_size=min(n, 1 << kl), unique=True))
     items = [[key, _g_hmval(draw, m)] for key in keys]
     op = {'op': 'hm_new', 'kl': kl, 'items': items, 'via': via or draw(st.sampled_from(['map_', 'map_', 'set']))}
-    if all(v['t'] == 'cell' for _, v in items) and draw(st.booleans()):
+    # the default value serializer (store_cell) takes anything with .bits / .refs: cells and - by duck typing - slices
+    if all(v['t'] in ('cell', 'own_cell', 'slice', 'own_slice') for _, v in items) and draw(st.booleans()):
         op['ser'] = 'default'
     return op
 
@@ -1879,8 +2017,12 @@ def _g_hm_set(draw, m, h):
 
 
 def _g_hm_edit(draw, m, h, how=None):
-    return {'op': 'hm_edit', 'h': h, 'how': how or draw(st.sampled_from(HM_EDITS)), 'k': draw(st.integers(0, 5)),
-            'n': draw(st.sampled_from([1, 1, 2, 7, 8, 15]))}
+    op = {'op': 'hm_edit', 'h': h, 'how': how or draw(st.sampled_from(HM_EDITS)), 'k': draw(st.integers(0, 5)),
+          'n': draw(st.sampled_from([1, 1, 2, 7, 8, 15]))}
+    if op['how'] == 'refill':
+        op['items'] = _g_hm_plain_items(draw, 8, draw(st.sampled_from(_HM_PLAIN)))       # keys are reduced modulo the key size
+        op['via'] = draw(st.sampled_from(['rebind', 'update', 'set']))
+    return op
 
 
 def _g_hm_ser(draw, m, h):
@@ -1929,7 +2071,7 @@ _MSG_EXT = '10' + '00' + '10' + '0' + '00000000' + '01' * 128 + '0000' + '0' + '
 
 def _kinds(m):
     k = [('cell', 6), ('new_builder', 1), ('vmstack', 2), ('hashmap', 1), ('M_plain_na', 2), ('M_dict', 1), ('M_vmtuple', 2),
-         ('M_msg', 1), ('hm_new', 1), ('nested', 2), ('M_hm_cycle', 2)]
+         ('M_msg', 1), ('hm_new', 1), ('nested', 2), ('M_hm_cycle', 2), ('M_hm_retype', 2)]
     if m.c:
         k += [('derive', 5), ('obs', 8), ('M_parse_load', 4), ('M_tobuilder_store', 4), ('M_order2', 3), ('M_hm_reparse', 1)]
     if m.h:
@@ -1979,6 +2121,17 @@ def _emit(draw, m, kind):
         for _ in range(draw(st.sampled_from([1, 1, 2]))):
             ops.append(_g_hm_set(draw, m, h) if draw(st.integers(0, 4)) == 0 else _g_hm_edit(draw, m, h))
         return ops + [_g_hm_ser(draw, m, h)]
+    if kind == 'M_hm_retype':                 # one object, default serializer, used for entries of one kind, then of another
+        h = len(m.h)
+        kl = draw(st.sampled_from([2, 8, 8, 16]))
+        k1, k2 = draw(st.sampled_from(_HM_PLAIN)), draw(st.sampled_from(_HM_PLAIN[1:]))
+        new = {'op': 'hm_new', 'kl': kl, 'items': _g_hm_plain_items(draw, kl, k1), 'via': draw(st.sampled_from(['map_', 'set']))}
+        if draw(st.integers(0, 3)):
+            new['ser'] = 'default'
+        ops = [new] + [_g_hm_ser(draw, m, h) for _ in range(draw(st.sampled_from([1, 1, 2])))]
+        ops.append({'op': 'hm_edit', 'h': h, 'how': 'refill', 'items': _g_hm_plain_items(draw, kl, k2),
+                    'via': draw(st.sampled_from(['rebind', 'update', 'set']))})
+        return ops + [_g_hm_ser(draw, m, h)]
     if kind == 'M_hm_reparse':                # read / modify / write: a dictionary cell is parsed into a HashMap (values = slices)
         kl = draw(st.sampled_from([2, 8, 8, 16]))
         keys = draw(st.lists(st.integers(0, (1 << kl) - 1), min_size=1, max_size=4, unique=True))
@@ -2012,7 +2165,9 @@ def _emit(draw, m, kind):
         return [{'op': 'bderive', 'how': draw(st.sampled_from(['end_cell', 'end_cell', 'to_cell'])), 'b': bi}, _g_store(draw, m, bi=bi)]
     if kind == 'M_order2':
         a, b = _idx(draw, len(m.c)), _idx(draw, len(m.c))
-        return [{'op': 'obs', 'what': 'order', 'c': a, 'k': 0}, {'op': 'obs', 'what': 'order', 'c': b, 'k': draw(st.sampled_from([0, 0, 1]))}]
+        use = draw(st.sampled_from([0, 1, 1, 2, 4, 5]))
+        return [dict({'op': 'obs', 'what': 'order', 'c': a, 'k': 0}, **({'use': use, 'o': b} if use else {})),
+                {'op': 'obs', 'what': 'order', 'c': b, 'k': draw(st.sampled_from([0, 0, 1]))}]
     raise ValueError(kind)
 
 
@@ -2255,6 +2410,40 @@ def enum_reuse(tier):
                         items = [[j, 1001 + 6 * j + (4 if (1001 + 6 * j) % 4 == 0 else 0), pat[j]] for j in range(n)]
                         yield {'ops': base[:2] + [{'op': 'nested', 'kl': kl, 'items': items, 'w': w, 'iw': iw, 'ikl': 16, 'inner': kind, 'c': 1},
                                                   {'op': 'obs', 'what': 'dict', 'c': 2, 'k': [1, kl]}] + tail}
+    # (f) one HashMap object used for entries of one kind, written, used for entries of another kind, written again - with the default
+    #     value serializer (store_cell: cells and, by duck typing, slices) and with the caller's; slices untouched / partly read
+    def plain(kind, shift):
+        if kind == 'empty':
+            return []
+        out = []
+        for j in range(2):
+            k = kind.split('-then-')[j] if '-then-' in kind else kind
+            out.append([5 + 90 * j + shift, {'t': 'own_cell', 'b': [9 + j, 2, j]} if k == 'cell' else {'t': 'ints', 'v': [j]} if k == 'ints' else
+                        {'t': 'own_slice', 'b': [8, 2, j], 'nr': 2, 'lr': 1, 'lb': 3 * j} if k == 'half-read-slice' else
+                        {'t': 'own_slice', 'b': [8, 2, j], 'nr': 2}])
+        return out
+    kinds = sorted(set(_HM_PLAIN))
+    for k1 in kinds:
+        for k2 in kinds[1:] if k1 == 'empty' else kinds:
+            for ser in ('default', None):
+                for via, via2, nser in (('map_', 'rebind', 1), ('set', 'set', 1), ('map_', 'update', 2)):
+                    new = {'op': 'hm_new', 'kl': 8, 'items': plain(k1, 0), 'via': via}
+                    if ser:
+                        new['ser'] = ser
+                    yield {'ops': base + [new] + [{'op': 'hm_ser', 'h': 0, 'fresh': i} for i in range(nser)]
+                           + [{'op': 'hm_edit', 'h': 0, 'how': 'refill', 'items': plain(k2, nser), 'via': via2}, {'op': 'hm_ser', 'h': 0, 'fresh': nser % 2},
+                              {'op': 'hm_edit', 'h': 0, 'how': 'touch', 'k': 0, 'n': 7}, {'op': 'hm_ser', 'h': 0}] + tail}
+    # (g) what the caller does with the dict order() returned (accumulator of another root that does / does not reference the cell,
+    #     entries taken off / added / numbered, emptied) does not reach later order() / to_boc() calls
+    more = [{'op': 'cell', 'route': 'builder', 'b': '0110', 'r': [1]},              # cell #2 references #1 (which references #0)
+            {'op': 'cell', 'route': 'tvm', 'b': [30, 2, 9], 'r': []},                # cell #3: unrelated
+            {'op': 'cell', 'route': 'builder', 'b': '1', 'r': [3, 1, 0]}]            # cell #4 shares children with #2
+    for k in (0, 1):
+        for use in (1, 2, 3, 4, 5, 6, [1, 2], [5, 1], [2, 1], [1, 4]):
+            for c, o in ((1, 2), (1, 3), (1, 4), (0, 1), (2, 1), (4, 2), (1, 1)):
+                yield {'ops': base + more + [{'op': 'obs', 'what': 'order', 'c': c, 'k': k, 'use': use, 'o': o},
+                                             {'op': 'obs', 'what': 'boc', 'c': c, 'k': 0}, {'op': 'obs', 'what': 'order', 'c': o, 'k': 0},
+                                             {'op': 'obs', 'what': 'order', 'c': c, 'k': 1 - k}, {'op': 'obs', 'what': 'boc', 'c': o, 'k': 3}] + tail}
     # (e) the caller's stack containers serialized, extended in place, serialized again (see _do_vmstack)
     one = {'t': 'int', 'v': '7'}
     for inner in ([], [one], [one, {'t': 'cell', 'i': 0}], [{'t': 'slice', 'i': 0}, one, one], [{'t': 'tuple', 'items': [one]}],
